@@ -95,12 +95,16 @@ def area_xy(area, cols, rows):
     return x0 + (cols + 0.5) * psx, y1 - (rows + 0.5) * psy
 
 
-def gen_colrow(r, R, C, h, w, spacing=None, first_row=None):
-    """A scan-like field of fractional columns/rows: rotated, sheared, slightly curved lattice."""
+def gen_colrow(r, R, C, h, w, spacing=None, first_row=None, scan=None):
+    """A scan-like field of fractional columns/rows: rotated, sheared, slightly curved lattice.  scan = (g, f): real scan
+    geometry, the rows of one scan of g rows are f times as far apart as the scan-to-scan advance would put them."""
     s = spacing if spacing is not None else r.choice([0.45, 0.8, 1.0, 1.3, 2.0, 3.0])
     th = r.uniform(-0.5, 0.5) if r.random() < 0.7 else r.choice([0.0, math.pi / 2, math.pi])
     sy = s * r.uniform(0.7, 1.3)
     i, j = np.meshgrid(np.arange(R, dtype=float), np.arange(C, dtype=float), indexing="ij")
+    if scan is not None:
+        g, f = scan
+        i = (i // g) * g + (i % g - (g - 1) / 2) * f + (g - 1) / 2
     ic, jc = i - (R - 1) / 2, j - (C - 1) / 2
     curve = r.uniform(-0.01, 0.01)
     u = s * jc * math.cos(th) - sy * ic * math.sin(th) + curve * ic * ic
@@ -246,13 +250,27 @@ def gen_scene(r, big=False, dropped=False, many_chunks=False, force_mwm=None):
         rps, R = 2, 8
         cols, rows = gen_colrow(r, R, C, h, w, spacing=3.0, first_row=-5.5)
     else:
-        cols, rows = gen_colrow(r, R, C, h, w)
+        # real scan geometry for half of the scenes: the scan size then matters for the ellipse parameters
+        scan = (rps, r.choice([0.5, 0.7, 1.4])) if r.random() < 0.5 else None
+        cols, rows = gen_colrow(r, R, C, h, w, scan=scan)
     lons, lats = lonlat_of(area, cols, rows)
     dtype = "f8" if dropped else r.choice(["f4", "f8", "f4", "f8", "f8", "i1"])
     mwm = ((r.random() < 0.35) if force_mwm is None else force_mwm) or dtype == "i1"
     # explicit fill values incl. the falsy 0 / 0.0; the default (NaN / dtype max) is passed explicitly or left at None
     fill = float(r.choice([0, 0, -128, 127, 127, -1])) if dtype == "i1" else r.choice([NAN, NAN, NAN, -999.0, 0.0, 0.0, -1.0])
     data, kind, const, has_fill = gen_data(r, R, C, dtype, mwm, fill)
+    # how the caller states the scan size: keyword only / geolocation attrs only / attrs AND a different explicit keyword /
+    # attrs and the keyword 0 (= whole swath)
+    attr_rps, rps_kw, rps_mode = None, rps, "keyword"
+    if not dropped and not many_chunks:
+        others = [d for d in range(2, R + 1) if R % d == 0 and d != rps]
+        m = r.random()
+        if m < 0.2:
+            attr_rps, rps_kw, rps_mode = rps, None, "attrs"
+        elif m < 0.5 and others:
+            attr_rps, rps_mode = r.choice(others), "attrs_overridden_by_keyword"
+        elif m < 0.6:
+            attr_rps, rps_kw, rps, rps_mode = rps, 0, R, "attrs_overridden_by_0"
     nscan = R // rps
     in_rows = rps * (1 if (dropped or many_chunks) else r.randint(1, max(1, nscan // 2)))
     sc = dict(area)
@@ -263,6 +281,7 @@ def gen_scene(r, big=False, dropped=False, many_chunks=False, force_mwm=None):
                "legacy": (not big) and fill != fill and r.random() < 0.6, "want_sub_fp": not big, "want_fp": True,
                "kind": kind, "const": const, "has_fill": has_fill, "grid": [h, w]})
     sc["ws_wsm"] = ws_wsm(sc["params"])
+    sc["attr_rps"], sc["rps_kw"], sc["rps_mode"] = attr_rps, rps_kw, rps_mode
     sc["layout"], sc["geo_layout"] = gen_layout(r, 0.5), gen_layout(r, 0.3)
     sc["persist"] = r.random() < 0.45
     sc["probe_rows"] = r.randint(1, R)
@@ -580,6 +599,21 @@ def judge_scene(case, o):
             fails.append(("C08.dask.scan_alignment", "_new_chunks gives row chunk %d, column chunk %d for rows_per_scan=%d, %d columns" % (nc[0], nc[1], case["rps"], C)))
     elif isinstance(nc, dict):
         fails.append(("C08.dask.scan_alignment", "_new_chunks raised %s" % nc))
+    pr = o.get("dask_plain_rps")
+    if pr is not None and "error" not in pr:
+        if "error" in dk:
+            fails.append(("C08.dask.rows_per_scan", "geolocation attrs rows_per_scan=%r, keyword rows_per_scan=%r: DaskEWAResampler raised %s: %s; without attrs and rows_per_scan=%d it works"
+                          % (case.get("attr_rps"), case.get("rps_kw"), dk["error"], dk.get("msg"), case["rps"])))
+            return fails, info
+        qa, qb = arr(dk["out"], (h, w)), arr(pr["out"], (h, w))
+        same = (qa == qb) | ((qa != qa) & (qb != qb))
+        if not same.all() and case.get("layout", "c") == "c" and case.get("geo_layout", "c") == "c":
+            rr, cc = [int(v[0]) for v in np.nonzero(~same)]
+            fails.insert(0, ("C08.dask.rows_per_scan", "geolocation attrs rows_per_scan=%r and keyword rows_per_scan=%r (scan size %d): cell (%d,%d) = %r, the same request without attrs and rows_per_scan=%d "
+                             "gives %r (%d cells differ)" % (case.get("attr_rps"), case.get("rps_kw"), case["rps"], rr, cc, qa[rr, cc], case["rps"], qb[rr, cc], int((~same).sum()))))
+    nr_ = o.get("dask_no_rps")
+    if nr_ is not None and "error" not in nr_:
+        fails.append(("C08.dask.rows_per_scan.missing", "neither the geolocation attrs nor the keyword give rows_per_scan, yet DaskEWAResampler returns a grid instead of raising"))
     np_ = o.get("dask_nopersist")
     if np_ is not None and "error" not in np_:
         if "error" in dk:
@@ -886,7 +920,7 @@ def run(ctx):
                 "fields (spacing 0.45..3 cells, rotation, curvature, NaN geolocation), float32/float64/int8 data (smooth, noise, constant, integer, wide; fill NaN, 0, -999, 255 / int8 0, -128, 127, -1; "
                 "NaN / fill pixels; handed over C-contiguous or as strided views into larger arrays, Fortran-ordered, transposed-back, negative strides), rows_per_scan dividing the rows, weight parameters, average and maximum-weight mode; (c) scenes = area + lon/lat "
                 "swath + data run one-shot and through DaskEWAResampler for scan-aligned input chunkings and random output chunk partitions (plus the "
-                "legacy resampler), with fill_value left at None or passed explicitly (NaN, 0.0, -1, -999; int8 0, -128, 127, -1), persist=True/False and, for some, a history of 2-3 resample() calls on ONE resampler object (each compared with a fresh "
+                "legacy resampler), with rows_per_scan given by keyword, by the lon/lat attrs, or by attrs AND a different explicit keyword (another divisor, 0 = whole swath) on real scan geometry, with fill_value left at None or passed explicitly (NaN, 0.0, -1, -999; int8 0, -128, 127, -1), persist=True/False and, for some, a history of 2-3 resample() calls on ONE resampler object (each compared with a fresh "
                 "object), incl. the known-finding scene and the flipped design-round area; (d) write_grid_image_single on explicit arrays "
                 "(float and int8 grids). A case is non-trivial when at least one grid cell receives >= 2 valid contributions (fornav/scene), at least "
                 "one pixel is counted in the grid (ll2cr), or a non-fill cell is written (wgrid); distinct = distinct inputs")
@@ -961,7 +995,7 @@ def run(ctx):
             ctx.add_failure(key, what, {"oracle": "fornav", "case": case})
         if "error" not in o and "error" not in o["oneshot"] and "error" not in o["ws"]:
             safe_append(ctx, F, "fornav_accumulate", coq_fcase, case, o, tab or {})
-    D, DR, BL = [], [], []
+    D, DR, BL, RP = [], [], [], []
     for case, o in zip(sc_cases, obs["scene"]):
         fails, info = judge_scene(case, o)
         ok = "error" not in o
@@ -972,7 +1006,7 @@ def run(ctx):
         ctx.case(("sc", case["extent"], case["shape"], case["lons"][0][:2], case["in_rows"], repr(case["out_chunks"]), case["mwm"]), nontrivial=multi,
                  sample={"scene_area": case["cls"], "grid": case["grid"], "swath": [len(case["lons"]), len(case["lons"][0])], "rps": case["rps"],
                          "in_rows": case["in_rows"], "out_chunks": case["out_chunks"], "mwm": case["mwm"], "dtype": case["dtype"], "fill_value": ("None (default)" if case.get("dask_fill_default") else repr(U(case["fill"]))),
-                         "placeholders": o.get("placeholders"), "persist": bool(case.get("persist")), "history_calls": len(case.get("history") or []),
+                         "placeholders": o.get("placeholders"), "rows_per_scan_attr": case.get("attr_rps"), "rows_per_scan_keyword": case.get("rps_kw"), "persist": bool(case.get("persist")), "history_calls": len(case.get("history") or []),
                          "legacy": bool(case.get("legacy")), "data_layout": case.get("layout", "c"), "lonlat_layout": case.get("geo_layout", "c")})
         ctx.count("scene:" + ("mwm" if case["mwm"] else "avg") + ":" + case["dtype"])
         ctx.count("scene:in_chunks=%d" % math.ceil(len(case["lons"]) / case["in_rows"]))
@@ -983,6 +1017,7 @@ def run(ctx):
             ctx.count("scene:has_cells_whose_value_coincides_with_fill")
         fv = U(case["fill"])
         ctx.count("scene:fill_" + ("default_none" if case.get("dask_fill_default") else "nan_explicit" if fv != fv else "zero" if fv == 0 else "other_explicit"))
+        ctx.count("scene:rows_per_scan_from_" + case.get("rps_mode", "keyword"))
         ctx.count("scene:persist=%s" % bool(case.get("persist")))
         if case.get("history"):
             ctx.count("scene:history_calls", len(case["history"]))
@@ -1009,6 +1044,12 @@ def run(ctx):
         for ci, s in enumerate(range(0, R, case["in_rows"])):
             pts = ["(%s, %s)" % (fh(U(a)), fh(U(b))) for a, b in zip(xs[s * C:(s + case["in_rows"]) * C], ys[s * C:(s + case["in_rows"]) * C])]
             DR.append("(%s, [%s], %s)" % (coq_area(case), "; ".join(pts), "true" if o["placeholders"][ci] else "false"))
+        oz = lambda v: "None" if v is None else "(Some (%d))" % v
+        for kwv, attr, nrows, got in o.get("get_rps", []):
+            if isinstance(got, str):
+                ctx.broken.append(("correspondence:rows_per_scan", "_get_rows_per_scan(%r) with attrs %r raised %s" % (kwv, attr, got)))
+            else:
+                RP.append("(%s, %s, %d, %s)" % (oz(kwv), oz(attr), nrows, oz(got)))
         blocks = sorted(set((t[1], t[2], t[3], t[4], t[5], t[6]) for t in o["tasks"]))
         nin = len(o["placeholders"])
         full = len(o["tasks"]) == nin * len(blocks) and sorted(set(t[0] for t in o["tasks"])) == list(range(nin))
@@ -1028,6 +1069,10 @@ def run(ctx):
     if DR:
         texts.append(("c08_dropped", HDR + "Definition cases : list (area float * list (float * float) * bool) := [%s].\nEval vm_compute in (bad chk_dropped cases).\n"
                       % ";\n".join(DR), DR, "dask_placeholder"))
+    if RP:
+        RP = sorted(set(RP))
+        texts.append(("c08_rps", HDR + "Definition cases : list (option Z * option Z * Z * option Z) := [%s].\nEval vm_compute in (bad chk_rps cases).\n"
+                      % ";\n".join(RP), RP, "rows_per_scan"))
     if BL:
         texts.append(("c08_blocks", HDR + "Definition cases : list (list Z * list Z * list (Z * Z * (Z * Z) * (Z * Z))) := [%s].\nEval vm_compute in (bad chk_blocks cases).\n"
                       % ";\n".join(BL), BL, "dask_blocks"))
